@@ -374,7 +374,15 @@ def run_one(sim, params):
                 if t.exc is not None and not isinstance(t.exc, SystemExit):
                     raise Violation("task-died", core.exc_site(t.exc), "task %s died with %r; %r" % (t.name, t.exc, desc))
         else:
-            w5.run_driver(k, stepped_driver)
+            try:
+                w5.run_driver(k, stepped_driver)
+            except (Violation, kernel.Deadlock, core.BudgetExceeded, core.HarnessError):
+                raise
+            except Exception as e:
+                # whatever leaves a socket call or the link step inside the repository is a verdict, not a harness error
+                if core.exc_site(e).endswith("@?"):
+                    raise
+                raise Violation("call-raised", core.exc_site(e), "stepped walk: %r (%s) left the stack; %r" % (e, core.exc_line(e), desc))
     except kernel.Deadlock as e:
         raise Violation("deadlock", ";".join(sorted(set(b.split(" at ")[-1].rsplit(":", 1)[0] for b in e.blocked)))[:200],
                         "no task can run: %s; %r" % ("; ".join(e.blocked)[:600], desc))
